@@ -22,6 +22,53 @@ class Fn:
         self.exit = d["exit"]
         self.blocks = {b["id"]: b for b in d["blocks"]}
         self.params = d.get("params", [])
+        self._inline_returned_locals()
+
+    def _inline_returned_locals(self):
+        """`T v = <init>; return v;` (v declared in the returning block, defined nowhere else, nothing in between) is presented to the rules as
+        `return <init>;` -- the two spellings are the same program, and rules that look at what a function returns should not depend on which is used"""
+        ndefs = {}
+        for b in self.blocks.values():
+            for ev in b["ev"]:
+                if ev.get("e") == "decl":
+                    ndefs[ev["d"]] = ndefs.get(ev["d"], 0) + 1
+                elif ev.get("e") == "asg":
+                    l = ev.get("lhs") or {}
+                    while isinstance(l, dict) and l.get("k") in ("paren", "cast", "icast"):
+                        l = l.get("e")
+                    if isinstance(l, dict) and l.get("k") == "ref":
+                        ndefs[l.get("d")] = ndefs.get(l.get("d"), 0) + 2
+
+        def unwrap(x):
+            while isinstance(x, dict) and (x.get("k") in ("paren", "cast", "icast") or (x.get("k") == "ctor" and len(x.get("a", [])) == 1)):
+                x = x.get("e") if x.get("k") != "ctor" else x["a"][0]
+            return x
+
+        def mentions(t, name):
+            if isinstance(t, dict):
+                if t.get("k") == "ref" and t.get("d") == name:
+                    return True
+                return any(mentions(v, name) for v in t.values())
+            if isinstance(t, list):
+                return any(mentions(v, name) for v in t)
+            return False
+        for b in self.blocks.values():
+            evs = b["ev"]
+            for i, ev in enumerate(evs):
+                if ev.get("e") != "ret":
+                    continue
+                x = unwrap(ev.get("x"))
+                if not (isinstance(x, dict) and x.get("k") == "ref" and x.get("dk") == "local" and ndefs.get(x["d"]) == 1):
+                    continue
+                name = x["d"]
+                j = [k for k in range(i) if evs[k].get("e") == "decl" and evs[k].get("d") == name and evs[k].get("init") is not None]
+                if not j:
+                    continue
+                between = evs[j[0] + 1:i]
+                copies = lambda e: e.get("e") == "call" and isinstance(e.get("x"), dict) and e["x"].get("k") == "ctor" and unwrap(e["x"]) is not e["x"] and mentions(e["x"], name)
+                if all(copies(e) for e in between):       # nothing but the copy into the return slot happens in between
+                    ev["x_via_local"] = name
+                    ev["x"] = evs[j[0]]["init"]
 
     @property
     def rel(self):
